@@ -92,6 +92,13 @@ package rules
 //   flow loop as its method (field form: c02CallerFields, fresh-literal initial flag); reserved-name
 //   helper as a lookup in a never-written package-level set (c02TableHas); recover helper writing the
 //   error result through a pointer; pipelines fetched by a helper with two results (c02Origins).
+//   Fourth round of seeded slips: C02/g (guard clause for the before pipeline returns before the after
+//   pipeline is built) → R-C02-5 "<builder>|after pipeline built whenever its flow is not empty"
+//   (c02GlobalFilterBuild); C02/h (HasResult via sort.SearchStrings without the equality) → R-C02-7
+//   "result declared by the filter kind": a project membership predicate is verified to answer true only
+//   after an element of Results was found equal to the key (c02MemberHelper); correct variants (index
+//   search with equality, equality loop, flag loop, StrInSlice wrapper, guard clauses per pipeline in
+//   helpers, `&&` guard) stay silent.
 //   P5 END test precomputed into a bool before the skip test but acted on after it;
 //   P6 skip and END tests as the cases of a tagless switch (in that order), END by early return.
 
@@ -132,7 +139,7 @@ func c02(c *core.Ctx) string {
 	c.Rule("R-C02-2", "forward only: the flow loop is a single range loop (or i++ loop) over the []FlowNode argument, its key/value variables and the ranged slice are never assigned, no goto, no nested loop, no recursion, Handle is not called from a closure")
 	c.Rule("R-C02-3", "loop invariant of jump/END (all paths): an iteration that ran a filter continues only with (result==\"\" ∧ next==\"\") or (result!=\"\" ∧ next==N.JumpIf[result] ∧ next!=\"\" ∧ next!=END); an iteration is passed over only with next!=\"\" ∧ next!=alias(N) and changes nothing; Handle is reached only with (next==\"\" ∨ next==alias(N)), N not an END node and sawEnd false; the loop is left early only at an END node that is reached (next==\"\" ∨ next==alias(N), not one being jumped over) or with result!=\"\" ∧ (next==\"\" ∨ next==END), and then the bool result is true; after exhaustion it is false; alias(N) is the same FlowNode method that validation counts jump targets by")
 	c.Rule("R-C02-4", "returned result: the string result of the flow loop function is the variable assigned from Filter.Handle, which has no other writer than its \"\" initialisation; callers return the string result of the last flow they ran")
-	c.Rule("R-C02-5", "before/main/after gating (all paths of every caller of the flow loop): order before → main → after, each flow at most once and with that pipeline's own flow, a flow is skipped only if its pipeline is nil or an earlier flow reported END, none runs after END was reported; GlobalFilter passes the pipelines built from the beforePipeline/afterPipeline spec keys in that order")
+	c.Rule("R-C02-5", "before/main/after gating (all paths of every caller of the flow loop): order before → main → after, each flow at most once and with that pipeline's own flow, a flow is skipped only if its pipeline is nil or an earlier flow reported END, none runs after END was reported; GlobalFilter passes the pipelines built from the beforePipeline/afterPipeline spec keys in that order, and builds each of them whenever its flow is not empty, independently of the other")
 	c.Rule("R-C02-6", "who may call Filter.Handle: the only dynamic call site of filters.Filter.Handle in production code is the one in the flow loop, and the flow loop is only called from Pipeline's handler methods")
 	c.Rule("R-C02-7", "validation covers the runtime lookups: Spec.Validate builds every filter spec with filters.NewSpec (error → reject), rejects reserved and duplicate names before registering the spec under spec.Name(), then validates jumps with that map on every accepting path, and a recovered panic yields a non-nil error; jump validation visits every node in reverse order, rejects unknown filters, results not in Kind.Results and targets whose count among later nodes is not exactly 1, and counts a node (by the runtime alias method) only after its own jumps were checked; GlobalFilter's Validate validates both embedded pipeline specs and propagates their errors")
 	c.Rule("R-C02-8", "declared results (every registered filter kind): every string constant that can flow to the result of the kind's Handle (returns, same-module static callees, struct fields, captured named results) is \"\" or a member of the kind's filters.Kind{Results: …}")
